@@ -1,2 +1,48 @@
-(* C12 — statements to come *)
-Require Import RV.Model.Server.
+(* C12 — IETF requests answered iff they name a supported version and this server.
+   Statements only, on the implementation's classifier model. *)
+Require Import RV.Model.Bytes RV.Gen.Tables RV.Model.Request RV.Model.Keys RV.Model.Message
+        RV.Spec.RefCodec RV.Spec.RefVerify RV.Spec.MerkleGoals RV.Spec.ServerGoals.
+Require Import RV.Proofs.RequestFacts.
+Local Open Scope N_scope.
+
+(* answered as IETF only if the version list contains draft-13 (within its first four entries) *)
+Theorem C12_version_needed :
+  forall srv d n, classify srv d = Ok (n, RfcDraft13) ->
+    exists payload m ver, unframe d = Some payload /\ ref_decode payload = Some m
+      /\ rget m VER = Some ver /\ In draft13_wire (firstn 4 (words_of ver)).
+Proof. exact classify_version_needed. Qed.
+Print Assumptions C12_version_needed.
+
+(* always answered if draft-13 is among the first four entries and the other conditions hold *)
+Theorem C12_first_four :
+  forall srv d payload m ver nonce,
+    (1024 <= length d <= 1500)%nat -> unframe d = Some payload -> ref_decode payload = Some m ->
+    rget m VER = Some ver -> In draft13_wire (firstn 4 (words_of ver)) ->
+    (rget m SRV = None \/ rget m SRV = Some srv) ->
+    rget m NONC = Some nonce -> length nonce = 32%nat ->
+    classify srv d = Ok (nonce, RfcDraft13).
+Proof. exact classify_first_four. Qed.
+Print Assumptions C12_first_four.
+
+(* a request carrying SRV is answered only when the value is this server's *)
+Theorem C12_srv :
+  forall srv d n payload m s, classify srv d = Ok (n, RfcDraft13) ->
+    unframe d = Some payload -> ref_decode payload = Some m -> rget m SRV = Some s -> s = srv.
+Proof. exact classify_srv. Qed.
+Print Assumptions C12_srv.
+
+(* a framed request is never answered as classic *)
+Theorem C12_never_classic :
+  forall srv d n, classify srv d = Ok (n, Google) -> firstn 8 d <> magic.
+Proof. exact classify_classic_never_framed. Qed.
+Print Assumptions C12_never_classic.
+
+(* the response states draft-13 as its version, and the list of supported versions, INSIDE the
+   signed SREP value *)
+Theorem C12_signed_version :
+  forall now root,
+    srep_bytes_of RfcDraft13 now root
+    = canon [(VER, draft13_wire); (RADI, u32le 5); (MIDP, u64le (fst now));
+             (VERS, [x00; x00; x00; x00] ++ draft13_wire); (ROOT, root)].
+Proof. intros [secs nanos] root. reflexivity. Qed.
+Print Assumptions C12_signed_version.
